@@ -21,7 +21,11 @@ Record case := mkCase {
   c_globals : list value;
   c_rules : list rule;
   c_obs_all : list nat;     (* matching_rules().include_private(true), as rule indices, ascending *)
-  c_obs_pub : list nat      (* matching_rules(), as rule indices, ascending *)
+  c_obs_pub : list nat;     (* matching_rules(), as rule indices, ascending *)
+  (* the same two observations when a rule that forces the pattern search is
+     compiled in front of the rule set (classification only, see [explain]) *)
+  c_warm_all : list nat;
+  c_warm_pub : list nat
 }.
 
 Fixpoint nat_list_eqb (a b : list nat) : bool :=
@@ -31,9 +35,13 @@ Fixpoint nat_list_eqb (a b : list nat) : bool :=
   | _, _ => false
   end.
 
-Definition agrees (tr : expr -> expr) (fast : bool) (c : case) : bool :=
+Definition agrees_with (tr : expr -> expr) (fast : bool) (c : case) (oa op : list nat) : bool :=
   let '(all, pub) := run tr (c_data c) (c_globals c) fast (c_rules c) in
-  nat_list_eqb all (c_obs_all c) && nat_list_eqb pub (c_obs_pub c).
+  nat_list_eqb all oa && nat_list_eqb pub op.
+Definition agrees (tr : expr -> expr) (fast : bool) (c : case) : bool :=
+  agrees_with tr fast c (c_obs_all c) (c_obs_pub c).
+Definition agrees_warm (tr : expr -> expr) (fast : bool) (c : case) : bool :=
+  agrees_with tr fast c (c_warm_all c) (c_warm_pub c).
 
 Definition check_case (c : case) : bool := agrees (fun e => e) false c.
 Definition spec_case (c : case) : bool := check_case c.
@@ -47,11 +55,18 @@ Definition max_var_depth (c : case) : nat :=
    3: reproduced by both together;
    4: not reproduced, but the rule set needs more than 64 variable slots
       (undefined-flag aliasing);
+   5: the documented meaning predicts what the implementation reports once
+      the pattern search is forced before the first condition is evaluated
+      (the lazily emitted call to search_for_patterns was skipped);
+   6, 7: same as 5 together with 1, respectively 2;
    255: unexplained *)
 Definition explain (c : case) : N :=
   if check_case c then 0%N
   else if agrees prefold false c then 1%N
   else if agrees (fun e => e) true c then 2%N
   else if agrees prefold true c then 3%N
+  else if agrees_warm (fun e => e) false c then 5%N
+  else if agrees_warm prefold false c then 6%N
+  else if agrees_warm (fun e => e) true c then 7%N
   else if Nat.leb 65 (max_var_depth c) then 4%N
   else 255%N.
